@@ -25,7 +25,7 @@ EXPLANATION = (
     "added on every path to the next section, compact arrays get sub-index 0 (UNSIGNED8) and the template at 1, name "
     "lists cover 1..NrOfEntries, comments/bit rate/baud-rate options/DeviceInfo stores; R11 implicit array members "
     "(sub-indices 1..255, template = sub-index 1, attribute list, parent link), copy_variable changes only name and "
-    "sub-index, the indirect-type threshold leaves every standard type code alone; R13 ODVariable.__len__ is positive for every data type and there is no __bool__ (lookups `names.get(k) or indices.get(k)` select by truthiness); R12 structural assumptions shared by all properties: no class-level mutable object is mutated in place by instances, no method re-runs the constructor, logging statements cannot raise (typed eager formatting, divisions), no mutable default argument is kept or mutated, no new truth-value test of a None-able number."
+    "sub-index, the indirect-type threshold leaves every standard type code alone; R13 ODVariable.__len__ is positive for every data type and there is no __bool__ (lookups `names.get(k) or indices.get(k)` select by truthiness); R12 structural assumptions shared by all properties: no class-level mutable object is mutated in place by instances, no method re-runs the constructor, logging statements cannot raise (typed eager formatting, divisions), no mutable default argument is kept or mutated, no new truth-value test of a None-able number, a look-up memory the pinned tree does not have is keyed by all its inputs (arithmetic keys folded over a grid of addresses) and, on the serving side, emptied somewhere."
     ' R7 also: _convert_variable probed with leading-zero byte strings through module helpers; node ids 1..127 pass every validation of import_eds.'
 )
 ASSUMPTIONS = [
